@@ -1,5 +1,7 @@
 import ExprModel.Spec.Eval
 import ExprModel.Code.Compile
+import ExprModel.Proofs.SpecRetype
+import ExprModel.Props.C18
 /-
 C15 — Type information only rejects; it never changes meaning.
 
@@ -8,8 +10,14 @@ What typed compilation changes in the emitted program (compiler/compiler.go) is 
  (2) the specialised `OpEqualInt` / `OpEqualString` for `==` on operands statically `int` / `string`,
  (3) integer literals pushed at the kind the checker retyped them to (call arguments only),
  (4) the result cast.  The theorems below settle (1), (2) and the environment-shape part for all values;
-(3) can only turn a success into a failure under Go's fixed parameter types (`retype_only_fails` is kept
-as a goal, its content is exercised by the mode-matrix oracle on the real code).
+then, for whole trees (second half of the file): `Node.eraseKd` (every annotation erased: what the untyped
+pipeline compiles); `typed_implies_erased_partial` — without literal retyping a typed success is the same
+untyped success (value, call log, counters), for every tree, by mutual induction over `Spec.eval`; the
+converse is false (`erased_not_implies_typed_witness`: the specialised `==` can fail where the generic one
+succeeds); `typed_untyped_agree_partial`; (3) with literals retyped as direct call arguments, two successes
+are equal under Go's fixed parameter types (`retype_only_fails_partial`); the unrestricted statement
+`retype_only_fails_goal` is false (`retype_only_fails_goal_false`, from `retype_changes_meaning_witness`);
+`typed_untyped_vm`: the same about runs of the two compiled programs, through C01's refinement theorem.
 -/
 namespace ExprModel.C15
 open ExprModel
@@ -65,12 +73,6 @@ theorem typed_differs_only_at (cfg : CompCfg) (m : Meta) (name : String) (ns : B
     refine ⟨r.1, r.2, fun _ => ?_⟩
     simp [compileNode, h, bind, Except.bind, pure, Except.pure]
 
-/-- full statement kept visible: erasing annotations can turn a success into a failure but cannot change a
-    successful value (needs Go's fixed parameter types as a hypothesis on the environment functions) -/
-def retype_only_fails_goal : Prop :=
-  ∀ (c : Spec.SCfg) (ctx : Spec.Ctx) (typed erased : Node) (σ : Spec.SState) (v w : Val) (σ₁ σ₂ : Spec.SState),
-    Spec.eval c ctx typed σ = (.ok v, σ₁) → Spec.eval c ctx erased σ = (.ok w, σ₂) → True
-
 end ExprModel.C15
 
 namespace ExprModel.C15
@@ -99,5 +101,155 @@ theorem retype_changes_meaning_witness :
   · simp [Spec.eval, wErased, wCfg, wEnv, bind, Spec.SM.bind', Spec.SM.lift, Spec.SM.pure', pure, fetchV, lookupKv,
       intConst, Spec.binArith, binHelper, refSem, armTypeOf, Helper.noFloat, Kind.maxRank, Kind.rank, applyOp, Helper.op]
     decide
+
+
+/-! ### whole trees: typed evaluation against the evaluation of the erased tree -/
+open ExprModel.Spec
+
+/-- (2) For a tree without literal retyping (`PlainInts`: every integer literal denotes the `int` it spells),
+    whatever the other annotations are: if the typed tree evaluates successfully, the erased tree evaluates
+    to the same value in the same final state (call log, allocation counters) — for all configurations,
+    closure contexts and start states.  The only places `eval` reads an annotation are `intConst` and the
+    `==` specialisation, whose success implies the generic `equal` gives the same boolean. -/
+theorem typed_implies_erased_partial (c : SCfg) (ctx : Ctx) (n : Node) (hn : PlainInts n) (σ σ' : SState) (v : Val)
+    (h : eval c ctx n σ = (.ok v, σ')) : eval c ctx n.eraseKd σ = (.ok v, σ') :=
+  eval_le_erase c n hn ctx σ v σ' h
+
+/-- `PlainInts` holds e.g. when every integer literal is annotated `.invalid` or `int` (value in range) -/
+example : PlainInts (.binary {} "+" (.int {} 1) (.int { kd := .num .int } 2)) :=
+  ⟨rfl, rfl⟩
+
+/-- `x == 1` with `x` statically `int` but dynamically an `int64` (a value behind a named type, C03) -/
+def eqTyped : Node := .binary {} "==" (.const { kd := .num .int } (.int .int64 1)) (.int { kd := .num .int } 1)
+
+/-- The converse is false: the erased tree can succeed where the typed one fails — the specialised
+    `OpEqualInt` is a type assertion; the generic `equal` compares across kinds. -/
+theorem erased_not_implies_typed_witness :
+    PlainInts eqTyped ∧ (eval wCfg [] eqTyped.eraseKd {}).1 = .ok (.bool true) ∧
+    (eval wCfg [] eqTyped {}).1 = .error .type_ := by
+  refine ⟨⟨trivial, rfl⟩, rfl, rfl⟩
+
+/-- (3) when both the typed tree and its erasure evaluate successfully the results are equal (and so are
+    call log and counters) -/
+theorem typed_untyped_agree_partial (c : SCfg) (ctx : Ctx) (n : Node) (hn : PlainInts n) (σ σ₁ σ₂ : SState) (v w : Val)
+    (h1 : eval c ctx n σ = (.ok v, σ₁)) (h2 : eval c ctx n.eraseKd σ = (.ok w, σ₂)) : v = w ∧ σ₁ = σ₂ :=
+  (eval_le_erase c n hn ctx).agree σ v w σ₁ σ₂ h1 h2
+
+/-- The full statement: erasing annotations can turn a success into a failure, or a failure into a success,
+    but two successes are the same value — for every tree, under Go's fixed parameter types for the
+    environment functions (`FixedParams`: a call that succeeds on `args` is refused on arguments that
+    differ in the kind of a number). -/
+def retype_only_fails_goal : Prop :=
+  ∀ (c : SCfg), FixedParams c.world → ∀ (ctx : Ctx) (n : Node) (σ σ₁ σ₂ : SState) (v w : Val),
+    eval c ctx n σ = (.ok v, σ₁) → eval c ctx n.eraseKd σ = (.ok w, σ₂) → v = w
+
+/-- (4) proved for trees in which retyped literals occur only as direct call arguments (`Half(1)`; every
+    other integer literal plain: `RetypeOK`): the two successes agree on the value, the call log and the
+    counters.  If the retyped argument differs in kind from the plain one, the callee accepts at most one of
+    them, so at most one of the two evaluations succeeds. -/
+theorem retype_only_fails_partial (c : SCfg) (hw : FixedParams c.world) (ctx : Ctx) (n : Node) (hn : RetypeOK n)
+    (σ σ₁ σ₂ : SState) (v w : Val)
+    (h1 : eval c ctx n σ = (.ok v, σ₁)) (h2 : eval c ctx n.eraseKd σ = (.ok w, σ₂)) : v = w ∧ σ₁ = σ₂ :=
+  eval_agree_erase c hw n hn ctx σ v w σ₁ σ₂ h1 h2
+
+/-- a world with one function `Half : func(float64) float64` -/
+def halfWorld : World :=
+  { call := fun id args => match id, args with
+      | "Half", [.f64 x] => .ok (.f64 x)
+      | _, _ => .error .type_
+    regexMatch := fun _ _ => none, pow := fun x _ => x }
+
+theorem halfWorld_fixed : FixedParams halfWorld := by
+  intro id args args' r h hrel hne
+  simp only [halfWorld] at h ⊢
+  split at h
+  · rename_i x
+    match args', hrel with
+    | [b], ⟨hb, _⟩ =>
+      rcases hb with hb | ⟨k, k', hk, hk', hkk⟩
+      · exact absurd (by rw [hb]) hne
+      · cases b <;> simp_all [kindOfVal]
+  · cases h
+
+/-- `Half(1)` as the checker annotates it: the literal retyped to `float64` -/
+def halfTyped : Node := .func {} "Half" [.int { kd := .num .float64 } 1] false
+def halfCfg : SCfg := { world := halfWorld, env := .map [("Half", .fn "Half")], budget := 1000 }
+
+/-- the hypotheses of `retype_only_fails_partial` are satisfiable, and literal retyping is exactly the case
+    where the *typed* program succeeds and the untyped one is rejected at run time -/
+example : RetypeOK halfTyped ∧ FixedParams halfCfg.world ∧
+    (∃ x, (eval halfCfg [] halfTyped {}).1 = .ok (.f64 x)) ∧
+    (eval halfCfg [] halfTyped.eraseKd {}).1 = .error .type_ :=
+  ⟨⟨.inr ⟨_, _, rfl, rfl, by decide⟩, trivial⟩, halfWorld_fixed, ⟨_, rfl⟩, rfl⟩
+
+theorem wWorld_fixed : FixedParams wWorld := by
+  intro id args args' r h
+  cases h
+
+/-- The unrestricted statement is false: `retype_changes_meaning_witness` (the checker retypes literals
+    underneath arithmetic inside a call argument — the known finding) is a counterexample. -/
+theorem retype_only_fails_goal_false : ¬ retype_only_fails_goal := by
+  intro hgoal
+  obtain ⟨⟨x, hx⟩, hy⟩ := retype_changes_meaning_witness
+  have he : wTyped.eraseKd = wErased := rfl
+  have := hgoal wCfg wWorld_fixed [] wTyped {} (eval wCfg [] wTyped {}).2 (eval wCfg [] wErased {}).2 (.f64 x) (.int .int 0)
+    (Prod.ext hx rfl) (by rw [he]; exact Prod.ext hy rfl)
+  cases this
+
+/-! ### transferred to the VM: the typed and the untyped compiled program -/
+open ExprModel.Refine (specOf)
+
+/-- the result directive as a function -/
+def castOut : Option Nat → Val → R Val
+  | none, v => .ok v
+  | some t, v => castV t v
+
+theorem specRun_ok {sc : SCfg} {cast : Option Nat} {n : Node} {v' : Val} {s : SState}
+    (h : Spec.run sc cast n = (.ok v', s)) :
+    ∃ v, eval sc [] n {} = (.ok v, s) ∧ castOut cast v = .ok v' := by
+  unfold Spec.run at h
+  rcases he : eval sc [] n {} with ⟨r, σ⟩
+  rw [he] at h
+  cases r with
+  | error e => simp at h
+  | ok v =>
+    cases cast with
+    | none => simp only [Prod.mk.injEq, Except.ok.injEq] at h; exact ⟨v, by rw [h.2], by rw [← h.1]; rfl⟩
+    | some t => simp only [Prod.mk.injEq] at h; exact ⟨v, by rw [h.2], h.1⟩
+
+/-- The typed program (any `mapEnv`, annotations as the checker left them) and the untyped program (the
+    erased tree), both compiled and run on the byte-level VM: whenever both runs succeed they return the
+    same value — under C01's side conditions for both, the same result cast, `RetypeOK` and fixed
+    parameter types. -/
+theorem typed_untyped_vm (c : Cfg) (hw : FixedParams c.world) (cfgT cfgU : CompCfg) (hcast : cfgT.cast = cfgU.cast)
+    (n : Node) (hn : RetypeOK n) (cpT cpU : Compiled)
+    (hT : C18.Conf c cfgT n cpT) (hU : C18.Conf c cfgU n.eraseKd cpU) :
+    ∃ N, ∀ fuel, N ≤ fuel → ∀ v w, (C18.vmOut c cpT fuel).1 = .ok v → (C18.vmOut c cpU fuel).1 = .ok w → v = w :=
+  C18.transfer hT hU (fun a b => ∀ v w, a.1 = .ok v → b.1 = .ok w → v = w) (by
+    intro v w h1 h2
+    obtain ⟨v0, e1, c1⟩ := specRun_ok (Prod.ext h1 rfl : Spec.run (specOf c) cfgT.cast n = (.ok v, _))
+    obtain ⟨w0, e2, c2⟩ := specRun_ok (Prod.ext h2 rfl : Spec.run (specOf c) cfgU.cast n.eraseKd = (.ok w, _))
+    obtain ⟨e, _⟩ := eval_agree_erase (specOf c) hw n hn [] {} v0 w0 _ _ e1 e2
+    subst e
+    rw [hcast, c2] at c1
+    exact (Except.ok.inj c1).symm)
+
+/-- `I == 1` as the checker annotates it over a map environment (`OpFetchMap`, `OpEqualInt`) … -/
+def vmTyped : Node := .binary { kd := .bool } "==" (.ident { kd := .num .int } "I" false) (.int { kd := .num .int } 1)
+def vmCfgT : CompCfg := { mapEnv := true }
+def vmCpT : Compiled := match compileProgram vmCfgT vmTyped with | .ok cp => cp | .error _ => default
+/-- … and as `expr.Eval` compiles it (`OpFetch`, `OpEqual`) -/
+def vmCpU : Compiled := match compileProgram {} vmTyped.eraseKd with | .ok cp => cp | .error _ => default
+
+set_option maxRecDepth 8000 in
+/-- non-vacuity of `typed_untyped_vm`: the two programs differ (specialised opcodes) and satisfy all side
+    conditions, in every world with fixed parameter types, every map environment and every budget -/
+example (c : Cfg) (hw : FixedParams c.world) (henv : ∃ kvs, c.env = .map kvs) :
+    vmCpT.code.map (·.instr) ≠ vmCpU.code.map (·.instr) ∧
+    ∃ N, ∀ fuel, N ≤ fuel → ∀ v w, (C18.vmOut c vmCpT fuel).1 = .ok v → (C18.vmOut c vmCpU fuel).1 = .ok w → v = w :=
+  ⟨by decide,
+   typed_untyped_vm c hw vmCfgT {} rfl vmTyped ⟨trivial, rfl⟩ vmCpT vmCpU
+    ⟨by unfold vmCpT; rfl, by decide, by decide, (fun _ => henv), ⟨trivial, trivial⟩⟩
+    ⟨by unfold vmCpU; rfl, by decide, by decide, (fun h => by cases h), ⟨trivial, trivial⟩⟩⟩
 
 end ExprModel.C15
